@@ -92,8 +92,8 @@ private theorem fmt019_10 : fmt019 10 = [48,48,48,48,48,48,48,48,48,48,48,48,48,
 private theorem fmt019_1 : fmt019 1 = [48,48,48,48,48,48,48,48,48,48,48,48,48,48,48,48,48,48,49] := by simp [fmt019, padZero, fmtNat, c0]
 
 def C17w_fs0 : FS := { header := some [], body := some [], session := some (timeText 5),
-                   sender := some [48,48,48,48,48,48,48,48,48,48,48,48,48,48,48,48,48,48,57],
-                   target := some [48,48,48,48,48,48,48,48,48,48,48,48,48,48,48,48,48,48,49] }
+                         sender := some [48,48,48,48,48,48,48,48,48,48,48,48,48,48,48,48,48,48,57],
+                         target := some [48,48,48,48,48,48,48,48,48,48,48,48,48,48,48,48,48,48,49] }
 
 /-- counter 9 → 10, process dies after 18 of the 19 bytes: a fresh store reads 19 -/
 theorem C17_witness_torn_counter :
@@ -102,8 +102,8 @@ theorem C17_witness_torn_counter :
   decide
 
 def C17w_fs1 : FS := { header := some [49,44,48,44,53,10], body := some [65,65,65,65,65], session := some (timeText 5),
-                   sender := some [48,48,48,48,48,48,48,48,48,48,48,48,48,48,48,48,48,48,57],
-                   target := some [48,48,48,48,48,48,48,48,48,48,48,48,48,48,48,48,48,48,49] }
+                         sender := some [48,48,48,48,48,48,48,48,48,48,48,48,48,48,48,48,48,48,57],
+                         target := some [48,48,48,48,48,48,48,48,48,48,48,48,48,48,48,48,48,48,49] }
 def C17w_st : FStore := { sync := true, opened := true }
 def C17w_msgB : Bytes := [66,66,66,66,66,66,66,66,66,66,66,66]
 def C17w_bigE : Int := 4611686018427387904
